@@ -555,7 +555,7 @@ pub fn rule_for(prop: &str) -> String {
         "C15" => "all pairs of duplicate-free tagged lists over a small alphabet (exhaustive), random pairs up to length 40 beyond; distinct = hash of the case line; non-trivial = the second list has >= 2 items absent from the first",
         "C16" => "all operation sequences up to a length bound over a fixed single-operation alphabet (exhaustive), random sequences up to length 60 at depth <= 3 beyond; non-trivial = the sequence adds a present name, or removes then adds, or operates on a name after set_child_optional",
         "C06" => "generated histories of 2-5 documents, each paired with 3 permutations, a duplication, an interleaving with element-less inputs and an insertion of a faulty document; non-trivial = the schema has >= 2 positions",
-        "C02" => "generated data-oriented histories; each rendering (quick-xml preset, unchanged, and a copy with deny_unknown_fields on every struct) is compiled by the real rustc with serde_derive and run: quick_xml::de::from_str on every source document, the value is fed to a string-collecting Serializer; non-trivial = program with >= 2 structs, >= 1 Option and >= 1 Vec field",
+        "C02" => "generated data-oriented histories; each rendering (quick-xml preset, unchanged, and a copy with deny_unknown_fields on every struct) is compiled by the real rustc with serde_derive and run: quick_xml::de::from_str on every source document, the value is fed to a string-collecting Serializer (every attribute value and text must be in it) and to a dumping Serializer whose output is compared with the value the Lean deserializer model (Model/Deser.lean) computes from the rendered text, for the source documents and for 1-3 foreign variants per program (extra.deser_model_*); non-trivial = program with >= 2 structs, >= 1 Option and >= 1 Vec field",
         "C13" => "as C02 with the serde-xml-rs preset and serde_xml_rs::from_str (namespace-free, repeated children adjacent, attribute names distinct from child names); non-trivial = program with >= 2 structs, >= 1 Option and >= 1 Vec field",
         "C12" => "scenarios = input (generated valid document, structured fault, byte mutation, not UTF-8, missing, directory) x --parser x --derive x --sort x output (stdout, new file, existing file, missing directory, a directory), run with the real binary in a fresh directory; non-trivial = not (valid input, all defaults, stdout)",
         "C11" => "generated histories paired with a rewritten variant (new values, text<->CDATA, inserted/removed comments, PIs, declaration, DOCTYPE, <x/> <-> <x></x>, expand_empty_elements, buffer capacity); non-trivial = the rewrite touched something",
@@ -984,6 +984,29 @@ fn is_k2(sxr: bool, p: &Program, j: usize, r: &compile::DocResult) -> bool {
         && p.docs.get(j).map_or(false, |d| d.to_xml().contains("http://www.w3.org/2001/XMLSchema-instance"))
 }
 
+/// K3: a white-space-only (or empty) CDATA section beside child elements is reported by quick-xml as character data;
+/// met while a `Vec` field collects its elements it is offered as a sequence element and `from_str` fails
+fn is_k3(sxr: bool, p: &Program, j: usize, r: &compile::DocResult) -> bool {
+    fn has_ws_cdata_beside_children(n: &Node) -> bool {
+        let kids = n.items.iter().any(|i| matches!(i, Item::Elem(_)));
+        let ws_cdata = n.items.iter().any(|i| matches!(i, Item::CData(t) if t.trim().is_empty()));
+        let other_text = n.items.iter().any(|i| matches!(i, Item::Text(_)) || matches!(i, Item::CData(t) if !t.trim().is_empty()));
+        (kids && ws_cdata && !other_text) || n.children().any(has_ws_cdata_beside_children)
+    }
+    !sxr && known_listed("C02", "quick-xml-whitespace-cdata-beside-repeated-children")
+        && !r.ok
+        && r.err.contains("invalid type: string")
+        && p.docs.get(j).map_or(false, |d| has_ws_cdata_beside_children(&d.root))
+}
+
+fn known_listed(prop: &str, sig: &str) -> bool {
+    std::fs::read_to_string("/verif/known_findings.json")
+        .ok()
+        .and_then(|s| serde_json::from_str::<Value>(&s).ok())
+        .and_then(|v| v.as_array().cloned())
+        .map_or(false, |a| a.iter().any(|k| k["property"] == prop && k["status"] == "known" && k["signature"] == sig))
+}
+
 fn k2_listed() -> bool {
     static LISTED: std::sync::OnceLock<bool> = std::sync::OnceLock::new();
     *LISTED.get_or_init(|| {
@@ -1019,12 +1042,17 @@ pub fn eval_programs(sum: &mut Summary, programs: &[Program], sxr: bool, nbins: 
     let mut lines = Vec::new();
     let mut k1_hits = 0u64;
     let mut k2_hits = 0u64;
+    let mut k3_hits = 0u64;
     for (i, (p, r)) in programs.iter().zip(results.iter()).enumerate() {
         let mut per_doc = Vec::new();
         for j in 0..p.docs.len() {
             let plain = r.docs.get(j).cloned().unwrap_or_default();
             let deny = if sxr { plain.clone() } else { r.docs_deny.get(j).cloned().unwrap_or_default() };
-            let ok = plain.ok && deny.ok;
+            let mut ok = plain.ok && deny.ok;
+            if !ok && is_k3(sxr, p, j, &plain) && is_k3(sxr, p, j, &deny) {
+                ok = true;
+                k3_hits += 1;
+            }
             let mut cap = plain.missing.is_empty() && deny.missing.is_empty();
             if !cap && is_k1(sxr, &plain) {
                 cap = true;
@@ -1048,6 +1076,10 @@ pub fn eval_programs(sum: &mut Summary, programs: &[Program], sxr: bool, nbins: 
     if k2_hits > 0 {
         let e = sum.extra.entry("known_hits_K2".to_string()).or_insert(json!(0));
         *e = json!(e.as_u64().unwrap_or(0) + k2_hits);
+    }
+    if k3_hits > 0 {
+        let e = sum.extra.entry("known_hits_K3".to_string()).or_insert(json!(0));
+        *e = json!(e.as_u64().unwrap_or(0) + k3_hits);
     }
     let verdicts = match driver::run(&lines) {
         Ok(v) => v,
@@ -1154,6 +1186,9 @@ pub fn check_compile(sum: &mut Summary, sxr: bool) {
     }
     if sum.extra.get("known_hits_K2").and_then(|v| v.as_u64()).unwrap_or(0) > 0 {
         hits.push("quick-xml-xsi-nil-optional-element-dropped");
+    }
+    if sum.extra.get("known_hits_K3").and_then(|v| v.as_u64()).unwrap_or(0) > 0 {
+        hits.push("quick-xml-whitespace-cdata-beside-repeated-children");
     }
     if !hits.is_empty() {
         sum.extra.insert("known_hits".into(), json!(hits));
@@ -1449,6 +1484,9 @@ pub fn replay(prop: &str, cv: &Value) -> i32 {
                     p.extra_docs = cv["extra_documents"].as_array().map(|a| a.iter().filter_map(|d| crate::xmlread::read_doc(d.as_str().unwrap_or("").as_bytes())).collect()).unwrap_or_default();
                     let mut sum = Summary::new(prop, "quick", 0, "replay");
                     eval_programs(&mut sum, &[p], sxr, 1, "replay");
+                    if std::env::var("XSG_VERBOSE").is_ok() {
+                        println!("{}", serde_json::to_string_pretty(&json!({"verdicts": sum.verdicts, "gen": sum.gen_reasons, "extra": sum.extra, "samples": sum.samples})).unwrap_or_default());
+                    }
                     for f in &sum.failures {
                         println!("{} {}", f.kind, f.what);
                     }
